@@ -28,6 +28,15 @@ def scenarios(rng, tier):
                 if which == 'add': s.op('st_add 1', m2, g2, rng.randrange(4))
                 else: s.op('st_%s 1' % which, m2, g2)
             else: s.op('adv', rng.choice([0, 1, 999, 1000, 5000, 30000, 59000, 60000, 61000, 200000] + ([32767000, 32768000, 32769000, 65536000 + 30000, 65595000, 2**31 * 1000] if k % 4 == 0 else [])))
+    # a full table of sessions that are all complete (or all but one); an unknown key then fails to enter and disturbs nothing
+    for k in range(4 if tier == 'quick' else 32):
+        s.start('fullc_%d' % k); s.op('mk 0'); s.op('adv', 5000)
+        ks16 = [(hx(mac(100 + i)), i % 3) for i in range(16)]
+        for m, g in ks16: s.op('st_add 0', m, g, 1)
+        for i, (m, g) in enumerate(ks16):
+            if not (k % 2 == 1 and i == 7): s.op('st_complete 0', m, g, 1)
+        s.op('st_add 0', hx(mac(999)), 0, 1); s.op('st_find 0', hx(mac(999)), 0); s.op('st_add 0', ks16[3][0], ks16[3][1], 9)
+        s.op('st_remove 0', ks16[5][0], ks16[5][1]); s.op('st_add 0', hx(mac(998)), 2, 1); s.op('tick 0')
     # expiry exactly at the second boundary with ticks closer together than a second (the clock has millisecond resolution)
     for k in range(12 if tier == 'quick' else 300):
         s.start('edge_%d' % k); s.op('mk 0'); s.op('adv', 1000 * rng.randrange(5, 50) + rng.choice([0, 3, 500]))
